@@ -28,13 +28,21 @@ def splitCells (sizes : List Nat) : List Nat × List Nat :=
   let idx := (splitIndex half 0 sizes).getD ((sizes.length + 1) / 2)
   (sizes.take idx, sizes.drop idx)
 
-/-- greedy phase: (totals, counts), most recent page first -/
-def greedy (usable : Nat) : List Nat → List Nat → List Nat → List Nat × List Nat
-  | [], tot, cnt => (tot, cnt)
-  | s :: rest, t :: tot, c :: cnt =>
-    if t + s ≤ usable then greedy usable rest ((t + s) :: tot) ((c + 1) :: cnt)
-    else greedy usable rest (s :: t :: tot) (1 :: c :: cnt)
-  | _ :: _, tot, cnt => (tot, cnt)
+/-- greedy phase: fill a page while the next cell still fits below `usable`, else open a new page.
+    `t` is the total of the page being filled, `cur` its cells. The result lists the pages in order. -/
+def pack (usable : Nat) : List Nat → Nat → List Nat → List (List Nat)
+  | [], _, cur => [cur]
+  | s :: rest, t, cur =>
+    if t + s ≤ usable then pack usable rest (t + s) (cur ++ [s]) else cur :: pack usable rest s [s]
+
+def flat : List (List Nat) → List Nat
+  | [] => []
+  | b :: bs => b ++ flat bs
+
+/-- (totals, counts) after the greedy phase, in page order -/
+def greedy (usable : Nat) (sizes : List Nat) : List Nat × List Nat :=
+  let pages := pack usable sizes 0 []
+  (pages.map sum, pages.map List.length)
 
 def setAt (l : List Nat) (i v : Nat) : List Nat := l.set i v
 
@@ -53,13 +61,29 @@ def fixStep (sizes : List Nat) (i : Nat) (f : Fix) : Option Fix :=
     else some { tot := setAt (setAt f.tot i (ti + sd)) (i - 1) (tl - sl), cnt := setAt (setAt f.cnt i (ci + 1)) (i - 1) (cl - 1), div := f.div - 1 }
   | _, _, _, _, _, _ => none
 
+inductive FixR where
+  | done (f : Fix)
+  | panic
+  | outOfFuel
+  deriving Repr, DecidableEq
+
 /-- the inner `while total[i] < under` -/
-def fixPage (sizes : List Nat) (under i : Nat) : Nat → Fix → Option Fix
-  | 0, _ => none
+def fixPageR (sizes : List Nat) (under i : Nat) : Nat → Fix → FixR
+  | 0, _ => .outOfFuel
   | fuel + 1, f =>
     match f.tot[i]? with
-    | none => none
-    | some ti => if ti < under then (fixStep sizes i f).bind (fixPage sizes under i fuel) else some f
+    | none => .panic
+    | some ti =>
+      if ti < under then
+        match fixStep sizes i f with
+        | none => .panic
+        | some f' => fixPageR sizes under i fuel f'
+      else .done f
+
+def fixPage (sizes : List Nat) (under i fuel : Nat) (f : Fix) : Option Fix :=
+  match fixPageR sizes under i fuel f with
+  | .done f' => some f'
+  | _ => none
 
 /-- `for i in (1..=len-1).rev()`, written as a countdown from `i` -/
 def fixAll (sizes : List Nat) (under : Nat) (fuel : Nat) : Nat → Fix → Option Fix
@@ -67,9 +91,7 @@ def fixAll (sizes : List Nat) (under : Nat) (fuel : Nat) : Nat → Fix → Optio
   | i + 1, f => (fixPage sizes under (i + 1) fuel f).bind (fixAll sizes under fuel i)
 
 def bestDistribution (usable under : Nat) (sizes : List Nat) : Option (List Nat × List Nat) :=
-  let (tot, cnt) := greedy usable sizes [0] [0]
-  let tot := tot.reverse
-  let cnt := cnt.reverse
+  let (tot, cnt) := greedy usable sizes
   if cnt.length ≥ 2 then
     let last := cnt.getLastD 0
     if sizes.length < last + 1 then none
